@@ -10,6 +10,7 @@ pub(crate) mod oracle;
 pub(crate) mod props;
 pub(crate) mod report;
 pub(crate) mod scen;
+pub(crate) mod sched;
 pub(crate) mod txlib;
 pub(crate) mod world;
 
